@@ -155,6 +155,24 @@ CHECKS = {
                 "non-trivial = E2 execution with a context switch / E1 history with submissions in several lifecycle states.",
         "assumptions": E1_ASSUME[:4] + ["schedules are sampled, not enumerated; at most 3 threads", "stuck states caused by a bitcoind outage are C12's business"],
     },
+    "C12": {
+        "engines": lambda tier: [{"engine": "e1o", "shards": 16, "args": {"cases": 30 if tier == "thorough" else 3, "max_faults": 600 if tier == "thorough" else 80}}],
+        "level": "fault_enumeration",
+        "rule": "fault space = for each history H (an E1 history of 25-65 steps that passed every sequential monitor): for EVERY node RPC issued in H an outage that "
+                "starts exactly at that RPC (transport errors for RPCs, transient errors for every block-source call) and lasts k in {0,1,2} further polls, with and "
+                "without H's next mined blocks arriving meanwhile; plus failures of 1-3 consecutive block-source calls at the start / middle / end of every poll with "
+                ">= 4 calls. Tower calls run on worker threads whose every lock and condvar operation goes through the scheduler observer, so 'the call waits for the "
+                "reachability signal holding these locks' is observed as a state; time is virtual (bounded waits expire only when the harness ticks the clock). "
+                "Oracle (bounded progress): (1) the call that hit the outage never returns with its RPC given up; (2) once a call is waiting for the node, all four "
+                "public endpoints answer 'unavailable'; (3) every poll issued during the outage returns; (4) after the node is back, within 2 polls and 3 clock "
+                "ticks the interrupted call completes, the API is available again, and (5) from H's next poll on the database equals the uninterrupted run's "
+                "(every breach answered, nothing dropped). non-trivial = fault reached; distinct = distinct (history, fault).",
+        "assumptions": E1_ASSUME[:2] + [
+            "an outage takes down RPC and block source together; scripted at call granularity",
+            "bounded progress replaces 'eventually': 2 polls + 3 ticks of the carrier's retry clock after the node is back",
+            "blocks mined during the outage are the history's own next blocks, and only those without penalties (whose presence in a block would depend on what the tower had broadcast)",
+        ],
+    },
     "C17": {
         "engines": _c17,
         "level": "exploration",
